@@ -16,11 +16,11 @@ namespace Selene.Lints
 open Selene.Lua
 
 /-- a diagnostic in token space.  `primary = ⟨i, j⟩` runs from the start of token `i` to the end of
-    token `j`, or — `endAtStart` — to the *start* of token `j` (only `empty_if`'s `elseif` label). -/
+    token `j`.  (Two labels of these lints end at the *start* of the following token; token space cannot see the
+    trivia in between, so they are given as ending with the token before it.) -/
 structure Diag where
   code : String
   primary : Span
-  endAtStart : Bool := false
   msg : String := ""
   secondary : List Span := []
 deriving DecidableEq, Repr, Inhabited
